@@ -9,6 +9,7 @@ import ast
 from .model import walk_no_nested, call_name, norm
 
 B, S, I, U = 'bytes', 'str', 'int', None
+T = 'tuple'
 PADS = ('_PAD', '_PAD2', '_PAD3', '_PAD4', '_PAD6')
 
 class Conflict(object):
@@ -36,6 +37,7 @@ def ty (e, env, selfattrs=None):
     f = e.func
     if isinstance(f, ast.Attribute):
       if isinstance(f.value, ast.Name) and f.value.id == 'struct' and f.attr == 'pack': return B
+      if isinstance(f.value, ast.Name) and f.value.id == 'struct' and f.attr in ('unpack', 'unpack_from'): return T
       if f.attr in ('pack', 'toRaw', 'encode', '_pack_body', 'tobytes', 'hdr'): return B
       if f.attr in ('decode', 'format', 'hexdigest'): return S
       if f.attr in ('ljust', 'rjust', 'strip', 'replace', 'lower', 'upper', 'lstrip', 'rstrip', 'zfill'):
@@ -114,7 +116,7 @@ def conflicts (fn, selfattrs=None, assume=None):
   for s in walk_no_nested(fn):
     if isinstance(s, ast.AugAssign) and isinstance(s.op, ast.Add):
       l = ty(s.target, env, selfattrs); r = ty(s.value, env, selfattrs)
-      if l and r and l != r and {l, r} <= {B, S, I}: out.append(Conflict(s, 'concat', l, r, norm(s)[:80]))
+      if l and r and l != r and {l, r} <= {B, S, I, T}: out.append(Conflict(s, 'concat', l, r, norm(s)[:80]))
     elif isinstance(s, ast.BinOp) and isinstance(s.op, ast.Add):
       l = ty(s.left, env, selfattrs); r = ty(s.right, env, selfattrs)
       if l and r and l != r and {l, r} <= {B, S, I}: out.append(Conflict(s, 'concat', l, r, norm(s)[:80]))
